@@ -484,6 +484,8 @@ def _time(repo, col, R="R-C08-time"):
     def is_T(t):     # the number of steps asked for: derived from t_max
         return T.find(t, lambda x: x.op == "param" and x.name == "t_max") is not None
 
+    T_TERMS = {}
+
     def direction(g):
         """+1: the condition says 'more steps asked for than available' (T > L or T >= L), -1: the opposite, None: other"""
         neg = False
@@ -494,8 +496,10 @@ def _time(repo, col, R="R-C08-time"):
         l, r = g.args
         if is_T(l) and is_len(r):
             d = 1 if g.name in (">", ">=") else -1
+            T_TERMS[l.key()] = l
         elif is_len(l) and is_T(r):
             d = 1 if g.name in ("<", "<=") else -1
+            T_TERMS[r.key()] = r
         else:
             return None
         return -d if neg else d
@@ -563,7 +567,7 @@ def _time(repo, col, R="R-C08-time"):
                 def leaf(x):
                     if is_len(x):
                         return _Rat.atom("L")
-                    if x.op in ("call",) and x.name == "int" and is_T(x):
+                    if x.key() in T_TERMS:   # the number of steps asked for, as it is compared with the length
                         return _Rat.atom("T")
                     return None
                 try:
@@ -587,7 +591,7 @@ def _time(repo, col, R="R-C08-time"):
         sl_ = sub_.args[1].args[0] if sub_.args[1].op == "tuple" else sub_.args[1]
         lo, hi, st_ = sl_.args
         ok = sl_.op == "slice" and lo.op == "const" and lo.name is None and st_.op == "const" and st_.name is None and is_T(hi) and \
-            hi.op == "call" and hi.name == "int"
+            hi.key() in T_TERMS
         col.check(ok and f["dir"] == -1, R, fi, "long inputs are cut to the number of steps asked for", "externals[key][:T, :]",
                   f"inputs are truncated with `{sub_.short(80)}` under direction {f['dir']}: long inputs must be cut to their first T rows "
                   f"exactly when T does not exceed their length", node=s_.node)
